@@ -6,21 +6,21 @@ from vlib import plan
 
 props = {json.loads(l)["id"]: json.loads(l) for l in open("properties.jsonl")}
 TEXT = {
- "C01": ("Engine M (mirsym): the MIR of Mean/Variance is executed symbolically in exact arithmetic; z3 proves the add-step identity for every count n and every real x, every accessor identity on every exact summary, and the definitional statistics for streams of 1..5 (7) symbolic observations. This decides that the formulas are the exact statistics (rounding aside) for all inputs and all n.",
+ "C01": ("Engine M (mirsym): the MIR of Mean/Variance is executed symbolically in exact arithmetic; z3 proves the add-step identity for every count n and every real x, every accessor identity on every exact summary, and the definitional statistics for streams of 1..5 (7) symbolic observations. This decides that the formulas are the exact statistics (rounding aside) for all inputs and all n. Rounding-error mode: z3 proves, per sign case, that the rigorous floating-point error bound propagated through the MIR stays inside the envelope C*n*kappa*2^-53*scale for ALL finite data with kappa <= 1e12 on short streams (mean n <= 4, variances n <= 3); Kani lattice harnesses at n = 3 for offsets up to 1e15.",
          "Bounds: counts < 2^53; f64 interpreted over the reals. Outside: accumulated rounding error (DESIGN.md section 3)."),
- "C02": ("Engine M: merge-step identity for all counts na, nb >= 0 and all real summaries (Mean..Kurtosis, Moments4, define_moments! orders 5, 6; 8 and 10 thorough); plus 4 (5) symbolic values under every composition into <= 3 (4) contiguous chunks and every binary merge tree. With the add-steps this is every chunking and every merge tree of any length by induction (DESIGN.md section 2.3).",
+ "C02": ("Engine M: merge-step identity for all counts na, nb >= 0 and all real summaries (Mean..Kurtosis, Moments4, define_moments! orders 5, 6); plus 4 (5) symbolic values under every composition into <= 3 (4) contiguous chunks and every binary merge tree. With the add-steps this is every chunking and every merge tree of any length by induction (DESIGN.md section 2.3). Rounding-error mode: z3 proves, per sign case, that the rigorous floating-point error bound propagated through the MIR stays inside the envelope C*n*kappa*2^-53*scale for ALL finite data with kappa <= 1e12 on short streams (mean and variance of chunks (1,1), (2,1), (1,2), (1,1,1) merged).",
          "Trusted: the binomial-theorem oracle (cross-checked by the definitional queries), mirsym's interpreter and models. Outside: rounding."),
- "C03": ("Engine M: add-step for Skewness/Kurtosis (all n), skewness()/kurtosis() accessor identities (sign and squared identity for roots), definitional streams.", "As C01."),
+ "C03": ("Engine M: add-step for Skewness/Kurtosis (all n), skewness()/kurtosis() accessor identities (sign and squared identity for roots), definitional streams. Rounding-error mode: z3 proves, per sign case, that the rigorous floating-point error bound propagated through the MIR stays inside the envelope C*n*kappa*2^-53*scale for ALL finite data with kappa <= 1e12 on short streams (mean, population_variance n <= 3; third central sum n = 3, kappa <= 1e6, as a counterexample generator whose models are measured on the real build).", "As C01."),
  "C04": ("Engine M on the macro-expanded MIR of define_moments! at N = 4, 5, 6, 8, 10: add-step for every p <= N and all n, central_moment(p)/standardized_moment(p) for every p <= N, definitional streams.", "As C01; instantiation bound N in {4,5,6,8,10}."),
- "C05": ("Engine M: one add from every well-formed marker state (count >= 5, any p in [0,1], real heights) is executed along all ~3.9k feasible paths; on each path the reference P-square update (re-stated from Jain & Chlamtac) is resolved branch by branch with z3 and all 15 state components are shown identical (z3 identity queries); initialisation by five symbolic observations. Thorough adds the bit-precise Kani bookkeeping steps.",
+ "C05": ("Engine M: one add from every well-formed marker state (count >= 5, any p in [0,1], real heights) is executed along all ~3.9k feasible paths; on each path the reference P-square update (re-stated from Jain & Chlamtac) is resolved branch by branch with z3 and all 15 state components are shown identical (z3 identity queries); initialisation by five symbolic observations. On changed code whose paths do not close: boundary-directed and small-integer witness queries per path, then a directed probe of the real build. Thorough adds the bit-precise Kani bookkeeping steps.",
          "Positions are integers (z3 Int), heights reals. Trusted: the reference transcription from the paper, mirsym. Outside: bit-level height agreement."),
- "C06": ("Kani/CBMC: for LEN 1..4 (10 thorough) all edge vectors that the real from_ranges accepts (inf, -0.0, repeated edges) x all samples incl. NaN x arbitrary counts: find/add succeed iff in range, the selected bin contains the sample, exactly that count is incremented, totals add. One add from arbitrary counts = induction over add sequences.",
+ "C06": ("Kani/CBMC: for LEN 1..4 (10 thorough) all edge vectors that the real from_ranges accepts (inf, -0.0, repeated edges) x all samples incl. NaN x arbitrary counts: find/add succeed iff in range, the selected bin contains the sample, exactly that count is incremented, totals add. One add from arbitrary counts = induction over add sequences. LEN 20, 33, 100 with concrete edges (symbolic infinite ends and one repeated edge), sample any double.",
          "Verdict is for Kani's pinned core (binary_search choice among equal edges); counterexamples are replayed on the repo toolchain. Outside: LEN 100."),
  "C07": ("Kani/CBMC: n = 1..4 observations in every arrival order against the exact-sample-quantile oracle, p over a 13-bit grid containing every m/4096 and over c/12 +- 1 ulp; values full doubles (n = 1, 3) or a lattice (n = 2, 4), full doubles in thorough.",
          "Outside: free-double p at n = 3, 4."),
  "C08": ("Engine M: add-step for any positive running weight and any weight >= 0, merge-step for all weights, every accessor on symbolic states, and definitional streams of 1..3 (4) pairs under every zero/positive weight pattern with all 2/3-chunk merge trees.", "As C01."),
- "C09": ("Engine M: Covariance add-step and merge-step for all counts, every accessor (pearson via r*sqrt(Sxx*Syy) = Sxy, |r| <= 1), definitional streams with all merge trees and the x<->y swap.", "As C01."),
- "C10": ("Engine M: sample_variance, variance_of_mean, error, sample_skewness (sign + squared identity, n >= 3; sentinels n = 0,1,2) and sample_excess_kurtosis (n >= 4; NaN below) on every exact summary with symbolic n.", "As C01."),
+ "C09": ("Engine M: Covariance add-step and merge-step for all counts, every accessor (pearson via r*sqrt(Sxx*Syy) = Sxy, |r| <= 1), definitional streams with all merge trees and the x<->y swap. Rounding-error mode: z3 proves, per sign case, that the rigorous floating-point error bound propagated through the MIR stays inside the envelope C*n*kappa*2^-53*scale for ALL finite data with kappa <= 1e12 on short streams (coordinate means and variances n <= 3 incl. merged chunks; population/sample covariance of 2 pairs, added or merged).", "As C01."),
+ "C10": ("Engine M: sample_variance, variance_of_mean, error, sample_skewness (sign + squared identity, n >= 3; sentinels n = 0,1,2) and sample_excess_kurtosis (n >= 4; NaN below) on every exact summary with symbolic n. Rounding-error mode: z3 proves, per sign case, that the rigorous floating-point error bound propagated through the MIR stays inside the envelope C*n*kappa*2^-53*scale for ALL finite data with kappa <= 1e12 on short streams (sample_variance of Skewness, Kurtosis, Moments4, M6, n <= 3).", "As C01."),
  "C11": ("Kani/CBMC, bit-exact: for every Merge type one merge from arbitrary well-formed (hook-built) states: merging new()/default() on either side leaves every field bit-identical, merged len is the exact sum, is_empty iff len == 0, argument untouched. One step from an arbitrary state covers every history.",
          "State invariant: n == 0 => new() values; n >= 1 => finite fields, sums of squares >= 0. Outside: u64 overflow; Min/Max via C14."),
  "C12": ("Kani/CBMC: from_ranges on every list of 0..LEN+3 unconstrained doubles (LEN 1..4, 10 thorough) equals the first-offender specification; with_const_width structure (LEN+1 edges, first == start, non-decreasing, zero counts) on the full magnitude domain.",
@@ -33,7 +33,7 @@ TEXT = {
  "C16": ("Kani/CBMC, bit-precise: every accessor of every estimator at sample sizes 0 and 1 (documented sentinels, no panic), sample-size sentinels at 2 and 3, constant streams of any length by an inductive step (n copies of x, add x), and the one documented panic.", "Constant-stream claims over the C01 value domain, counts < 2^53."),
  "C17": ("Kani/CBMC: one add / one merge from arbitrary states with |values| <= 1e150: sums of squares never decrease, every variance >= 0, error not NaN; Welford mean step inside the hull (counts <= 1024). Engine M: merged mean between the operand means, weighted mean in [min,max], effective_len in [1,n].", "Outside: bit-precise merge hull; |x| > 1e150."),
  "C18": ("Kani/CBMC on the serde_derive-generated code of every estimator struct through a lossless in-memory format: from any state with finite fields, serialise -> deserialise gives bit-equal fields, leaves the original untouched, re-serialises identically.", "serde_json's text layer is replaced by the tape format (the property asks for a lossless format)."),
- "C19": ("Kani/CBMC on the real impl_from_par_iterator! expansions over a contract stub of rayon whose schedule (cuts, bracketing, identity insertions) is symbolic: exact len for every moment type, exact min/max, empty input, mean within range.", "Real threads are outside Kani; rayon's conformance to its fold/reduce contract is trusted."),
+ "C19": ("Kani/CBMC on the real impl_from_par_iterator! expansions over a contract stub of rayon whose schedule (cuts, bracketing, identity insertions) is symbolic: exact len for Mean and Variance (Skewness on concrete data in the thorough tier), exact min/max, empty input, mean within range.", "Real threads are outside Kani; rayon's conformance to its fold/reduce contract is trusted."),
  "C20": ("Engine M: collect by value/reference and extend by value/reference after every prefix perform the identical sequence of add(x) calls with identical argument terms and end in the identical state, for all real inputs; estimate() is term-for-term the headline accessor; concatenate! structs report term-for-term the stand-alone statistics. Kani: bit-level agreement on concrete data with a symbolic split.", "Bit-identity for arbitrary doubles follows from identical call sequences (determinism of add)."),
 }
 
